@@ -83,8 +83,9 @@ example : (5, "late", true) ∉ (saveStep false (saveStep false ⟨false, []⟩ 
 saves DAG-shaped values concurrently to exercise it) -/
 theorem token_save_waits : SFV.Gen.tokenSaveWaits = true := by decide
 
-/-- **Token values round-trip** (`load_save_val`): for every well-formed token value — plain tokens, `ListToken`s and
-`ObjectToken`s nested to any depth, any tags, any `recoverable` flags — and every database state, `Token.save` followed by
+/-- **Token values round-trip** (`load_save_val`): for every well-formed token value — plain tokens (file tokens are plain
+tokens with a JSON document as value), `ListToken`s, `ObjectToken`s and `JobToken`s (a job with its input tokens) nested to any
+depth, any tags, any `recoverable` flags — and every database state, `Token.save` followed by
 `Token.load` of the returned id gives the same value back; in particular the same type, tag, members and the same
 (derived, for list/object tokens) recoverable flag. -/
 theorem load_save_val (t : Tok) (hw : Wf .tok t) (db : DB) (hok : Ok db) :
@@ -102,6 +103,13 @@ theorem save_keeps_loaded (t : Tok) (m : Mode) (db : DB) (hok : Ok db) (fuel id 
 def exTok : Tok :=
   .list "0" (.cons (.obj "0.0" (.kcons "a" (.plain "0.0" 7 true) (.kcons "b" (.list "0.0" (.cons (.plain "0.0.0" 1 false) .nil)) .nil)))
             (.cons (.plain "0.1" 9 true) .nil))
+
+/-- a job token whose job has a list and a plain input -/
+def exJob : Tok :=
+  .job "0" 42 true (.kcons "in" (.list "0" (.cons (.plain "0.0" 1 false) .nil)) (.kcons "n" (.plain "0" 5 true) .nil))
+
+example : Wf .tok exJob := by simp [exJob, Wf]
+example : load 10 (save .tok exJob ⟨fun _ => none, 1⟩).1 4 = some exJob ∧ recoverable exJob = true := by decide +kernel
 
 example : Wf .tok exTok := by simp [exTok, Wf]
 example : load 10 (save .tok exTok ⟨fun _ => none, 1⟩).1 6 = some exTok ∧ recoverable exTok = false := by decide +kernel
